@@ -304,6 +304,23 @@ def run_property(prop, tier, repo, workdir, ledger, seed):
                     res["undecided"].append("%s: vacuity: only %d of %d cover properties satisfied" % (name, c["covers"][0], c["covers"][1]))
                 else:
                     o["status"] = "discharged"
+            elif c["status"] == "failed" and c.get("unwinding") and h["name"] in ledger and any(
+                    "unwinding assertion" in f["msg"] and f["file"].startswith(cfg["dir"] + "/") for f in c["failed_checks"]):
+                # A loop in the library itself now iterates more often than the bound under which this harness was complete on the
+                # reference tree (bounded by a type constant there): possible unbounded / peer-controlled loop.  Kani gives no input
+                # for an unwinding failure, so this is reported without a witness.
+                o["status"] = "failed"
+                o["witness"] = False
+                o["errors"] = [{"msg": "loop bound exceeded: %s" % f["msg"], "text": "%s (%s:%d in %s): iterates more often than the unwinding bound that was complete on the reference tree" % (f["msg"], f["file"], f["line"], f["in"]),
+                                "where": [{"gen_line": f["line"], "origin": ("repo", f["file"], f["line"])}], "level": "error"} for f in c["failed_checks"] if "unwinding" in f["msg"]]
+                os.makedirs(replay_dir, exist_ok=True)
+                rp = os.path.join(replay_dir, "%s-kani-%s.json" % (prop, h["name"]))
+                with open(rp, "w") as f:
+                    json.dump({"property": prop, "obligation": name, "backend": "kani-cbmc", "function": h["fn"], "contract": h["desc"],
+                               "failed_checks": c["failed_checks"], "verdict": "no-failing-input-found",
+                               "note": "unwinding assertion failed inside the library: the loop is no longer bounded by the constant that bounded it on the reference tree",
+                               "verifier_output": blk[-3000:] if blk else ""}, f, indent=1)
+                o["replay"] = rp
             elif c["status"] == "failed" and not c.get("unwinding"):
                 o["errors"] = [{"msg": f["msg"], "text": "%s (%s:%d in %s)" % (f["msg"], f["file"], f["line"], f["in"]), "where": [{"gen_line": f["line"], "origin": ("repo", f["file"], f["line"])}], "level": "error"} for f in c["failed_checks"]]
                 if h["name"] not in ledger:
